@@ -182,11 +182,7 @@ pub fn generate(rng: &mut Rng, tier: &str) -> Case {
     // composite programs: two templates side by side (their modules differ), at most 4 files kept in total so that
     // all permutations stay affordable; state that leaks from one file's processing into another's has more to hit
     if rng.chance(1, 3) && program.files.len() <= 3 {
-        let mut other = catalogue::instantiate(*rng.pick(catalogue::TEMPLATES), rng);
-        if other.order_sensitive_known || program.order_sensitive_known {
-            // the recorded order dependence stays confined to its own template, so that its signature is exact
-            other.files.clear();
-        }
+        let other = catalogue::instantiate(*rng.pick(catalogue::TEMPLATES), rng);
         for f in other.files.into_iter() {
             if program.files.len() >= 4 {
                 break;
